@@ -1021,7 +1021,17 @@ func (h) Exec(line string, out func(string, string), st *hlib.Stats, work string
 		})
 		st.Count("fmt:" + w[1])
 		emit(line, res, len(ls) > 0 || nonASCII(orig))
-	case "best":
+	case "best", "beste", "bestx", "bestm": // beste/bestx/bestm arrive here only from a replay of an emitted line
+		if strings.HasPrefix(w[len(w)-1], "quiet=") {
+			w = w[:len(w)-1]
+			line = strings.Join(w, " ")
+		}
+		switch w[0] {
+		case "bestx":
+			line += quietFor(work, "order", "marks")
+		case "bestm":
+			line += quietFor(work, "multi")
+		}
 		fs, _ := strconv.Atoi(w[2])
 		num, _ := strconv.Atoi(w[3])
 		orig := unhex(w[4])
@@ -1031,7 +1041,11 @@ func (h) Exec(line string, out func(string, string), st *hlib.Stats, work string
 		if hasTies(ls) {
 			st.Count("best:with-equal-starts")
 		}
-		res := doBest(w[1], fs, num, orig, ls, timesFor(ls))
+		times := timesFor(ls)
+		if w[0] == "bestx" || w[0] == "bestm" {
+			times = 24
+		}
+		res := doBest(w[1], fs, num, orig, ls, times)
 		if strings.Contains(res, "|") {
 			st.Count("best:several-outputs")
 		}
